@@ -132,8 +132,15 @@ def run(tier, selftest=False, only=None):
         raise MachineryError("only %d expression cases emitted" % len(cases))
     nbad = 0
     for c in cases:
-        for key in ("t", "u"):
-            text = "".join(c[key])
+        for key in ("t", "u", "mixed"):
+            if key == "mixed":
+                # each factor may use either spelling of the micro prefix, independently of the others
+                t0 = "".join(c["t"])
+                if t0.count("µ") < 2:
+                    continue
+                text = t0.replace("µ", "u", 1) if len(t0) % 2 else "u".join(t0.rsplit("µ", 1))
+            else:
+                text = "".join(c[key])
             rep.case(text)
             if not same(c["m"], impl_units(text)):
                 nbad += 1
